@@ -442,7 +442,7 @@ Definition update_position_reply (w : world) (input output reply_id : Z) : res (
               Ok (fst wm, snd wm, sf_required funds)
             else if sgtb mtv szero then
               if t_native (w_tok w1) then
-                do rq <- cadd (sf_required funds) swap_margin;
+                do rq <- cadd (sf_required funds) (sval mtv);
                 Ok (st1, [], rq)
               else Ok (st1, [execute_transfer_from w1 trader A_ENGINE (sval mtv)], sf_required funds)
             else Ok (st1, [], sf_required funds));
@@ -491,9 +491,9 @@ Definition reverse_position_reply (w : world) (input output : Z) : res (world * 
     Ok (set_eng w e2, fmsgs ++ [execute_transfer trader (sval margin)])
   else
     do mtv <- schecked_sub previous_margin (ts_upnl swap);
-    do required2 <- if s_is_positive mtv then cadd required (sval mtv)
-                    else if sval mtv <? required then csub required (sval mtv)
-                    else cadd spread toll;
+    (* the margin of the re-opened position is counted, net of what the old position releases, when the
+       re-opening swap is answered (update_position_reply) *)
+    let required2 := required in
     let swap' := mkTmp vamm trader (ts_side swap) (ts_margin_amount swap) (ts_leverage swap) new_on
                        (ts_position_notional swap) szero mtv true in
     let e1 := store_position (w_eng w) vamm trader p' in
